@@ -778,6 +778,8 @@ class Container:
             amount_to_add = Unit.convert(source, quantity, 'U')
         else:
             amount_to_add = Unit.convert(source, quantity, config.moles_storage_unit)
+        if abs(amount_to_add) == float('inf') or abs(volume_to_add) == float('inf'):
+            raise ValueError("Quantity must be finite.")
         # negative is what would be stored as a negative amount (the storage units decide, not litres or grams)
         if (Unit.parse_quantity(quantity)[0] < 0 and
                 (round(amount_to_add, config.internal_precision) < 0 or
